@@ -73,7 +73,7 @@ class World(object):
       d = H.Doc.new()
       log = [H.stored_reprs(d.init_group)]
       for b in self.setup:
-        g = d.apply(b)
+        g = d.apply(b(d) if callable(b) else b)
         log.append(H.stored_reprs(g))
       self._base = {'snap': d.snapshot(), 'dump': d.dump(), 'init_log': log}
     return self._base
@@ -92,7 +92,7 @@ def build(world, origin, prefix_bundles):
     doc = H.Doc.new()
     log = [H.stored_reprs(doc.init_group)]
     for b in world.setup:
-      log.append(H.stored_reprs(doc.apply(b)))
+      log.append(H.stored_reprs(doc.apply(b(doc) if callable(b) else b)))
   for b in prefix_bundles:
     g, _e = doc.try_apply(b)
     log.append(H.stored_reprs(g) if g is not None else [])
